@@ -74,7 +74,7 @@ theorem clean_deletes_only_matching (w : World) (st : St) :
     congr 1
     funext n
     rw [cleanAccept_split, Bool.and_comm]
-  refine ⟨st', h1, ?_, ?_, ?_⟩
+  refine ⟨st', by rw [cleanDir_eq]; exact h1, ?_, ?_, ?_⟩
   · rw [h5, hf]
     simp [St.emit, removeNames_append, removeNames]
   · intro l hl
@@ -88,6 +88,48 @@ theorem clean_deletes_only_matching (w : World) (st : St) :
   · intro n hn ha hne
     have := h7 n (by rw [hf]; exact List.mem_filter.mpr ⟨hn, ha⟩) (by simpa [St.emit] using hne)
     simpa [St.emit] using this
+
+/-- the match loop is a fold over the directory entries whose only carried state, the flag through which the digit scan
+    reports, is re-initialised by the loop body for EVERY entry (regenerated fact; the model's fold `cleanLoopF` threads the
+    flag, `Lemmas.cleanLoopF_eq` reduces it to the stateless loop because of this) -/
+theorem clean_flag_reset_per_entry : cleanScanFlagCarried = none ∧ ∀ f, entryFlag f = true :=
+  ⟨rfl, entryFlag_true⟩
+
+/-- the SET of names `cleanImplementationFiles` calls `remove` on = { listed names matching `[sd][0-9]{10}\.c` }: a statement
+    about membership, hence independent of the order (and multiplicity) in which glob / readdir return the entries -/
+theorem clean_removes_exactly_matching (w : World) (st : St) :
+    ∃ st', cleanDir w st = .val st' ∧
+      ∀ n, n ∈ removeNames st'.events ↔ (n ∈ removeNames st.events ∨ (n ∈ w.listing st.inOut ∧ IsImplName n)) := by
+  obtain ⟨st', h1, h2, _⟩ := clean_deletes_only_matching w st
+  refine ⟨st', h1, fun n => ?_⟩
+  rw [h2, List.mem_append, List.mem_filter, impl_name_pred_iff]
+
+/-- two runs of the clean step from the same state whose listings hold the same entries in ANY order (and with either `char`
+    signedness) call `remove` on the same set of names and leave the same directory state: no stale implementation file
+    survives because of where readdir happened to put it -/
+theorem clean_order_independent (w₁ w₂ : World) (st : St)
+    (hsame : ∀ n, n ∈ w₁.listing st.inOut ↔ n ∈ w₂.listing st.inOut) :
+    ∃ s₁ s₂, cleanDir w₁ st = .val s₁ ∧ cleanDir w₂ st = .val s₂ ∧
+      (∀ n, n ∈ removeNames s₁.events ↔ n ∈ removeNames s₂.events) ∧ (∀ l, s₁.fs l = s₂.fs l) := by
+  obtain ⟨s₁, a1, a2, a3, a4⟩ := clean_deletes_only_matching w₁ st
+  obtain ⟨s₂, b1, b2, b3, b4⟩ := clean_deletes_only_matching w₂ st
+  refine ⟨s₁, s₂, a1, b1, fun n => ?_, fun l => ?_⟩
+  · rw [a2, b2, List.mem_append, List.mem_append, List.mem_filter, List.mem_filter, impl_name_pred_iff, impl_name_pred_iff, hsame]
+  · by_cases hA : l.inOut = st.inOut ∧ l.name ∈ w₁.listing st.inOut ∧ cleanAccept w₁.charSigned l.name = true
+    · have hB : l.inOut = st.inOut ∧ l.name ∈ w₂.listing st.inOut ∧ cleanAccept w₂.charSigned l.name = true :=
+        ⟨hA.1, (hsame _).mp hA.2.1, (impl_name_pred_iff _ _).mpr ((impl_name_pred_iff _ _).mp hA.2.2)⟩
+      have hl : l = ⟨st.inOut, l.name⟩ := by
+        cases l
+        simp only [Loc.mk.injEq, and_true]
+        exact hA.1
+      by_cases hne : st.fs l = some .dirNonEmpty
+      · rw [cleanDir_fs_nonEmpty w₁ st s₁ l hne a1, cleanDir_fs_nonEmpty w₂ st s₂ l hne b1]
+      · rw [hl] at hne ⊢
+        rw [a4 l.name hA.2.1 hA.2.2 hne, b4 l.name hB.2.1 hB.2.2 hne]
+    · have hB : ¬ (l.inOut = st.inOut ∧ l.name ∈ w₂.listing st.inOut ∧ cleanAccept w₂.charSigned l.name = true) := by
+        intro hh
+        exact hA ⟨hh.1, (hsame _).mpr hh.2.1, (impl_name_pred_iff _ _).mpr ((impl_name_pred_iff _ _).mp hh.2.2)⟩
+      rw [a3 l hA, b3 l hB]
 
 /-! ## a whole run -/
 
